@@ -1,5 +1,5 @@
 """P01 - the TLA+ proof system checks (unbounded, model level; not in MANIFEST.checks):
-   proofs/util/ProgressProof (C19), proofs/logger/LogSinkProof (C02), proofs/tasklane/TaskLaneProof + TaskLaneInv + 8 step modules (C06, C07), proofs/tasklane/TaskLaneShareProof (C08), proofs/tasklane/TaskLaneCountProof + TaskLaneStatusProof (C14)."""
+   proofs/util/ProgressProof (C19), proofs/logger/LogSinkProof (C02), proofs/tasklane/TaskLaneProof + TaskLaneInv + 8 step modules (C06, C07), proofs/tasklane/TaskLaneShareProof (C08), proofs/tasklane/TaskLaneCountProof + TaskLaneStatusProof (C14), proofs/netutil/IPv4FilterConcProof (C12)."""
 TASKLANE_PROOF = ["TaskLaneInv", "TaskLaneStepA", "TaskLaneStepB", "TaskLaneStepC", "TaskLaneStepD", "TaskLaneStepE",
                   "TaskLaneStepF", "TaskLaneStepG", "TaskLaneStepH", "TaskLaneProof"]
 
@@ -12,6 +12,8 @@ def run(ctx):
     n3 += n5
     n4 = ctx.tlaps("tasklane", "TaskLaneShareProof", tag="TaskLaneShareProof: NoIdleWhileWaiting (C08) for any N, Q, tasks, producers")
     n3 += n4
+    n6 = ctx.tlaps("netutil", "IPv4FilterConcProof", tag="IPv4FilterConcProof: MutualExclusion, ScanSeesStableFilter (C12) for any writers / readers / programs")
+    n2 += n6
     ctx.cov.update({"evaluations": n1 + n2 + n3, "distinct_nontrivial": n3,
                     "rule": "proof obligations of the inductive-invariant proofs, all discharged by tlapm (SMT / Zenon / Isabelle / PTL back ends); "
                             "non-trivial = obligations of the TaskLane protocol proof", "exhaustive": True,
